@@ -41,12 +41,22 @@ Proof.
   - intros H. exists c. split; [exact H|apply Nat.eqb_refl].
 Qed.
 
-Lemma eval_kexpr_spec : forall vis r e v v',
-  kexpr_has_neg e = false -> forallb (fun c => mem c vis) (kexpr_cols e) = true ->
-  eval_kexpr vis r e = Some v -> eval (to_expr e) r = Some v' -> v = v'.
+(* without ABS the reference value is the evaluator of the shared SQL semantics *)
+Lemma spec_kexpr_is_eval : forall e r, kexpr_has_fn e = false -> spec_kexpr e r = eval (to_expr e) r.
 Proof.
-  intros vis r. induction e as [c|z|op a IHa b IHb|a IHa]; intros v v' Hn Hv Hi Hs;
-    cbn [kexpr_has_neg kexpr_cols eval_kexpr to_expr eval] in *.
+  induction e as [c|z|op a IHa b IHb|a IHa|a IHa]; intros r Hn; cbn [kexpr_has_fn spec_kexpr to_expr eval] in *;
+    try reflexivity.
+  - apply orb_false_elim in Hn. destruct Hn as [Ha Hb]. rewrite (IHa r Ha), (IHb r Hb). reflexivity.
+  - rewrite (IHa r Hn). destruct (eval (to_expr a) r); reflexivity.
+  - discriminate.
+Qed.
+
+Lemma eval_kexpr_spec : forall vis r e v v',
+  kexpr_has_fn e = false -> forallb (fun c => mem c vis) (kexpr_cols e) = true ->
+  eval_kexpr vis r e = Some v -> spec_kexpr e r = Some v' -> v = v'.
+Proof.
+  intros vis r. induction e as [c|z|op a IHa b IHb|a IHa|a IHa]; intros v v' Hn Hv Hi Hs;
+    cbn [kexpr_has_fn kexpr_cols eval_kexpr spec_kexpr] in *.
   - cbn [forallb] in Hv. rewrite andb_true_r in Hv. rewrite Hv in Hi. inversion Hi; subst.
     apply nth_error_nth. exact Hs.
   - destruct (i64_ok z); [|discriminate]. congruence.
@@ -54,10 +64,16 @@ Proof.
     rewrite forallb_app in Hv. apply andb_prop in Hv. destruct Hv as [Hva Hvb].
     destruct (eval_kexpr vis r a) as [va|] eqn:Ea; [|discriminate].
     destruct (eval_kexpr vis r b) as [vb|] eqn:Eb; [|destruct va; discriminate].
-    destruct (eval (to_expr a) r) as [va'|] eqn:Sa; [|discriminate].
-    destruct (eval (to_expr b) r) as [vb'|] eqn:Sb; [|discriminate].
+    destruct (spec_kexpr a r) as [va'|] eqn:Sa; [|discriminate].
+    destruct (spec_kexpr b r) as [vb'|] eqn:Sb; [|discriminate].
     assert (va = va') by (eapply IHa; eauto). assert (vb = vb') by (eapply IHb; eauto). subst va' vb'.
     destruct va, vb; cbn [arith_values] in Hs; try discriminate; try congruence.
+  - destruct (eval_kexpr vis r a) as [va|] eqn:Ea; [|discriminate].
+    destruct (spec_kexpr a r) as [va'|] eqn:Sa; [|discriminate].
+    assert (va = va') by (eapply IHa; eauto). subst va'.
+    destruct va; cbn [arith_values arith_z] in Hs; try discriminate; try congruence.
+    replace (0 - z)%Z with (- z)%Z in Hs by lia.
+    destruct (i64_ok (- z)); congruence.
   - discriminate.
 Qed.
 
@@ -81,27 +97,29 @@ Proof.
       cbn [eval_src den_value] in *. inversion Hv; subst. apply nth_error_nth. exact Hs.
     + destruct e; discriminate.
   - (* expression *)
+    assert (Hgen : forall vis, src = SrcExpr e vis -> d = DExpr e -> v = v').
+    { intros vis -> ->.
+      destruct (negb (forallb (fun c => mem c vis) (kexpr_cols e))) eqn:Ev; [discriminate|].
+      apply negb_false_iff in Ev.
+      destruct (kexpr_has_fn e) eqn:En; [discriminate|].
+      cbn [eval_src den_value] in *. eapply eval_kexpr_spec; eauto. }
     destruct Hsrc as [-> | ->].
-    + destruct e as [c|z|op a b|a]; cbn [src_above] in *.
+    + destruct e as [c|z|op a b|a|a]; cbn [src_above] in *.
       * destruct d; discriminate.
       * destruct d; [discriminate|]. cbn [key_den] in Hd.
         destruct ((1 <=? z)%Z && (z <=? Z.of_nat (length (out_cols ncols s)))%Z); [|discriminate].
         destruct (nth_error (out_cols ncols s) (Z.to_nat (z - 1))); discriminate.
-      * cbn [key_den] in Hd. inversion Hd; subst d.
-        destruct (kexpr_has_neg (XBin op a b)) eqn:En; [discriminate|].
-        destruct (forallb (fun c => mem c (plain_cols (items_of s))) (kexpr_cols (XBin op a b))) eqn:Ev; [|discriminate].
-        cbn [eval_src den_value] in *. eapply eval_kexpr_spec; eauto.
-      * cbn [key_den] in Hd. inversion Hd; subst d. cbn [kexpr_has_neg] in Hc. discriminate.
-    + destruct e as [c|z|op a b|a]; cbn [src_below] in *.
+      * cbn [key_den] in Hd. inversion Hd; subst d. eapply Hgen; reflexivity.
+      * cbn [key_den] in Hd. inversion Hd; subst d. eapply Hgen; reflexivity.
+      * cbn [key_den] in Hd. inversion Hd; subst d. eapply Hgen; reflexivity.
+    + destruct e as [c|z|op a b|a|a]; cbn [src_below] in *.
       * destruct d; discriminate.
       * destruct d; [discriminate|]. cbn [key_den] in Hd.
         destruct ((1 <=? z)%Z && (z <=? Z.of_nat (length (out_cols ncols s)))%Z); [|discriminate].
         destruct (nth_error (out_cols ncols s) (Z.to_nat (z - 1))); discriminate.
-      * cbn [key_den] in Hd. inversion Hd; subst d.
-        destruct (kexpr_has_neg (XBin op a b)) eqn:En; [discriminate|].
-        destruct (forallb (fun c => mem c (seq 0 ncols)) (kexpr_cols (XBin op a b))) eqn:Ev; [|discriminate].
-        cbn [eval_src den_value] in *. eapply eval_kexpr_spec; eauto.
-      * cbn [key_den] in Hd. inversion Hd; subst d. cbn [kexpr_has_neg] in Hc. discriminate.
+      * cbn [key_den] in Hd. inversion Hd; subst d. eapply Hgen; reflexivity.
+      * cbn [key_den] in Hd. inversion Hd; subst d. eapply Hgen; reflexivity.
+      * cbn [key_den] in Hd. inversion Hd; subst d. eapply Hgen; reflexivity.
 Qed.
 
 (* ------------------------------------------------------------------ all keys of a query *)
@@ -163,57 +181,31 @@ Proof.
     f_equal; [symmetry; apply nth_error_nth; exact E|apply IH; exact E2].
 Qed.
 
-Lemma forall2b_eqb_eq : forall a b, forall2b Nat.eqb a b = true -> a = b.
-Proof.
-  induction a as [|x a IH]; intros [|y b] H; cbn [forall2b] in H; try discriminate; [reflexivity|].
-  apply andb_prop in H. destruct H as [H1 H2]. apply Nat.eqb_eq in H1. f_equal; auto.
-Qed.
-
-Lemma proj_seq_twice : forall k r, proj (seq 0 k) (proj (seq 0 k) r) = proj (seq 0 k) r.
-Proof.
-  intros k r. unfold proj at 1 3. apply map_ext_in. intros c Hc. apply in_seq in Hc.
-  unfold proj. set (f := fun c0 : nat => nth c0 r VNull).
-  rewrite (nth_indep (map f (seq 0 k)) VNull (f 0)) by (rewrite map_length, seq_length; lia).
-  rewrite map_nth. rewrite seq_nth by lia. reflexivity.
-Qed.
-
 Lemma impl_pay_agrees : forall ncols q r p,
-  known_class_q ncols q = 0%Z -> spec_pay ncols q r = Some p -> impl_pay ncols q r = p.
+  class_of ncols q = 0%Z -> spec_pay ncols q r = Some p -> impl_pay ncols q r = p.
 Proof.
   intros ncols q r p Hk Hp. unfold spec_pay in Hp. apply spec_pay_proj in Hp. subst p.
-  unfold impl_pay. unfold known_class_q in Hk. destruct (pay_mode_of q); [reflexivity| |discriminate].
-  destruct (forall2b Nat.eqb (out_cols ncols (q_sel q)) (seq 0 (length (out_cols ncols (q_sel q))))) eqn:E; [|discriminate].
-  apply forall2b_eqb_eq in E. rewrite E. apply proj_seq_twice.
+  unfold impl_pay. unfold class_of in Hk. destruct (pay_mode_of q); [reflexivity|discriminate].
 Qed.
 
 (* ------------------------------------------------------------------ the elements *)
-Lemma class0_facts : forall ncols q, known_class_q ncols q = 0%Z ->
-  (q_distinct q && has_window q = false) /\ (has_order q = true -> keys_class0 ncols q).
+Lemma class0_facts : forall ncols q, class_of ncols q = 0%Z -> keys_class0 ncols q.
 Proof.
-  intros ncols q Hk. unfold known_class_q in Hk. destruct (pay_mode_of q) eqn:Em.
-  - destruct (q_distinct q && has_window q) eqn:Ed; [discriminate|]. split; [reflexivity|].
-    intros _. apply keys_class0_of. exact Hk.
-  - unfold pay_mode_of in Em. destruct (q_sel q); [destruct (_ && _); discriminate|].
-    destruct (negb (has_order q)) eqn:E1; cbn [andb] in Em; [|discriminate].
-    destruct (negb (has_window q)) eqn:E2; cbn [andb] in Em; [|discriminate].
-    apply negb_true_iff in E1, E2. rewrite E2, andb_false_r. split; [reflexivity|]. rewrite E1. discriminate.
-  - discriminate.
+  intros ncols q Hk. unfold class_of in Hk. destruct (pay_mode_of q); [|discriminate].
+  apply keys_class0_of. exact Hk.
 Qed.
 
 Lemma keys_class0_nil : forall ncols q, q_keys q = [] -> keys_class0 ncols q.
 Proof. intros ncols q H. unfold keys_class0. rewrite H. constructor. Qed.
 
 Lemma elements_agree : forall ncols q t B E,
-  known_class_q ncols q = 0%Z -> spec_elts ncols q t = Some B ->
+  class_of ncols q = 0%Z -> spec_elts ncols q t = Some B ->
   all_some (map (impl_elt (impl_srcs ncols q) ncols q) (filter (passes_where (q_where q)) t)) = Some E ->
   E = B.
 Proof.
   intros ncols q t B E Hk Hs Hi. unfold spec_elts in Hs.
   destruct (spec_dens ncols q) as [dens|] eqn:Ed; [|discriminate].
-  assert (Hkeys : keys_class0 ncols q).
-  { destruct (class0_facts ncols q Hk) as [_ H]. destruct (q_keys q) eqn:Eq.
-    - apply keys_class0_nil. exact Eq.
-    - apply H. unfold has_order. rewrite Eq. reflexivity. }
+  pose proof (class0_facts ncols q Hk) as Hkeys.
   eapply all_some_agree; [|exact Hi|exact Hs].
   intros r a b _ Ha Hb. unfold impl_elt in Ha. unfold spec_elt in Hb.
   destruct (all_some (map (eval_src r) (impl_srcs ncols q))) as [ks|] eqn:E1; [|discriminate].
@@ -222,4 +214,10 @@ Proof.
   inversion Ha; inversion Hb; subst. f_equal.
   - eapply key_values_agree; eauto.
   - apply impl_pay_agrees; assumption.
+Qed.
+
+(* the statement the executor runs has the same reference elements *)
+Lemma spec_elts_exec : forall ncols q t, spec_elts ncols (exec_q q) t = spec_elts ncols q t.
+Proof.
+  intros ncols q t. unfold exec_q. destruct (q_distinct q && has_window q); reflexivity.
 Qed.
